@@ -396,6 +396,83 @@ impl Gen {
                 oracle: ix::pda_oracle(&whirlpool),
             };
             let price = pick_start_price(&mut rng, spacing);
+            let adaptive = knobs.profile == Profile::Adaptive;
+            if adaptive {
+                let (tier_index, c) = crate::gen2::pick_adaptive_constants(&mut rng, spacing, p as u16);
+                let permissioned = rng.chance(1, 3);
+                let pool_auth = if permissioned { payer } else { Pubkey::default() };
+                let base_fee = *rng.pick(&[0u16, 100, 3000, 10000, 60000]);
+                let tier = ix::pda_fee_tier(&config, tier_index);
+                world::must(
+                    &mut l,
+                    vec![ix::mk(
+                        whirlpool::accounts::InitializeAdaptiveFeeTier {
+                            whirlpools_config: config,
+                            adaptive_fee_tier: tier,
+                            funder: payer,
+                            fee_authority,
+                            system_program: ix::sys(),
+                        },
+                        whirlpool::instruction::InitializeAdaptiveFeeTier {
+                            fee_tier_index: tier_index,
+                            tick_spacing: spacing,
+                            initialize_pool_authority: pool_auth,
+                            delegated_fee_authority: fee_authority,
+                            default_base_fee_rate: base_fee,
+                            filter_period: c.filter_period,
+                            decay_period: c.decay_period,
+                            reduction_factor: c.reduction_factor,
+                            adaptive_fee_control_factor: c.adaptive_fee_control_factor,
+                            max_volatility_accumulator: c.max_volatility_accumulator,
+                            tick_group_size: c.tick_group_size,
+                            major_swap_threshold_ticks: c.major_swap_threshold_ticks,
+                        },
+                    )],
+                    "initialize_adaptive_fee_tier",
+                );
+                let whirlpool = ix::pda_whirlpool(&config, &ma, &mb, tier_index);
+                let keys = PoolKeys {
+                    whirlpool,
+                    fee_tier_index: tier_index,
+                    oracle: ix::pda_oracle(&whirlpool),
+                    ..keys
+                };
+                let enable = if permissioned && rng.chance(1, 2) {
+                    Some((clock_base.unix_timestamp as u64) + rng.below(120))
+                } else {
+                    None
+                };
+                world::must(
+                    &mut l,
+                    vec![ix::mk(
+                        whirlpool::accounts::InitializePoolWithAdaptiveFee {
+                            whirlpools_config: config,
+                            token_mint_a: ma,
+                            token_mint_b: mb,
+                            token_badge_a: ix::pda_token_badge(&config, &ma),
+                            token_badge_b: ix::pda_token_badge(&config, &mb),
+                            funder: payer,
+                            initialize_pool_authority: payer,
+                            whirlpool,
+                            oracle: keys.oracle,
+                            token_vault_a: keys.vault_a,
+                            token_vault_b: keys.vault_b,
+                            adaptive_fee_tier: tier,
+                            token_program_a: ix::tok(),
+                            token_program_b: ix::tok(),
+                            system_program: ix::sys(),
+                            rent: ix::rent_sysvar(),
+                        },
+                        whirlpool::instruction::InitializePoolWithAdaptiveFee {
+                            initial_sqrt_price: price,
+                            trade_enable_timestamp: enable,
+                        },
+                    )],
+                    "initialize_pool_with_adaptive_fee",
+                );
+                pools.push(PoolInfo { keys, adaptive: true });
+                continue;
+            }
             let use_v2 = rng.chance(1, 2);
             let ixn = if use_v2 {
                 ix::initialize_pool_v2(&keys, &payer, price)
